@@ -3,7 +3,9 @@
 against the check(s) recorded as catching it and report the ones that are no longer caught.
 Works on scratch worktrees through tools/tryseed.sh; never touches /repo or /verif/evidence.
 
-usage: reseed.py [-j N] [ID-prefix ...]     e.g. reseed.py C08 C15 C16 D2
+usage: reseed.py [-j N] [--refresh] [ID-prefix ...]     e.g. reseed.py C08 C15 C16 D2
+--refresh: store the replay file produced now as the seed's replay.json (replay files are tied to the
+version of the machinery that wrote them).
 Writes /verif/seeded/RESEED.json (name -> {check: exit}).
 """
 import json, os, re, subprocess, sys, glob
@@ -24,16 +26,29 @@ def checks_of(meta):
             out.append(i)
     return out or [meta.get("property")]
 
+REFRESH = False
+
 def run(job):
     name, patch, check = job
     so = "/tmp/seedout-re-%s-%s" % (name[:40], check)
     r = subprocess.run("VERIF_SEEDOUT=%s /verif/tools/tryseed.sh %s %s quick" % (so, patch, check), shell=True, env=ENV, capture_output=True, text=True)
     first = [l for l in r.stdout.split("\n") if l.startswith("  C") or l.startswith("HARNESS")]
+    if REFRESH and r.returncode == 1:
+        files = sorted(glob.glob(so + "/replays/*.json"))
+        meta = json.load(open(os.path.dirname(patch) + "/meta.json"))
+        own = meta.get("property") == check or len(checks_of(meta)) == 1 or checks_of(meta)[0] == check
+        if files:
+            dst = os.path.dirname(patch) + ("/replay.json" if own else "/replay-%s.json" % check)
+            subprocess.run(["cp", files[0], dst])
     subprocess.run("rm -rf %s" % so, shell=True)
     return name, check, r.returncode, (first[0][:300] if first else "")
 
 def main():
+    global REFRESH
     args = sys.argv[1:]
+    if "--refresh" in args:
+        REFRESH = True
+        args.remove("--refresh")
     jobs_n = 1
     if args and args[0] == "-j":
         jobs_n = int(args[1]); args = args[2:]
